@@ -146,7 +146,30 @@ fn slices(r: &Rope) -> Value {
       }
     }
   }
-  json!({"all": v, "panics": panics})
+  // the other range forms and the panicking variant, each as the half-open
+  // range it stands for: [a, b, result]
+  let mut more = vec![];
+  let mut push = |a: usize, b: usize, res: std::thread::Result<Option<String>>| match res {
+    Ok(Some(s)) => more.push(json!([a, b, [bytes_json(s.as_bytes())]])),
+    Ok(None) => more.push(json!([a, b, []])),
+    Err(_) => {
+      panics.push(json!([a, b, LAST_PANIC.with(|c| c.borrow().clone())]));
+      more.push(json!([a, b, [[-1]]]));
+    }
+  };
+  for a in 0..=n + 1 {
+    push(a, n, catch_unwind(AssertUnwindSafe(|| r.get_byte_slice(a..).map(|s| s.to_string()))));
+    push(0, a, catch_unwind(AssertUnwindSafe(|| r.get_byte_slice(..a).map(|s| s.to_string()))));
+    for b in 0..=n + 1 {
+      push(a, b + 1, catch_unwind(AssertUnwindSafe(|| r.get_byte_slice(a..=b).map(|s| s.to_string()))));
+      // `byte_slice` panics exactly where `get_byte_slice` answers None
+      let strict = catch_unwind(AssertUnwindSafe(|| r.byte_slice(a..b).to_string()));
+      push(a, b, Ok(strict.ok()));
+    }
+  }
+  push(0, n, catch_unwind(AssertUnwindSafe(|| r.get_byte_slice(..).map(|s| s.to_string()))));
+  drop(push);
+  json!({"all": v, "more": more, "panics": panics})
 }
 
 pub fn run_program(pid: u64, prog: &Value) -> Vec<Value> {
